@@ -67,6 +67,9 @@ type Opts struct {
 	// Redealers: this many dealers have their context rebuilt after part of their pieces was delivered;
 	// the remaining receivers get the pieces of the second context.
 	Redealers int
+	// Miners: build the group from these miners (same ids, same long-term secrets) instead of fresh ones:
+	// a second group with the same membership gets other share keys (they depend on the group hash).
+	Miners []*model.SelfMinerInfo
 }
 
 // idFor builds member i's id (0-based) in the given style.
@@ -144,6 +147,11 @@ func RunDKG(rng *rand.Rand, n int, tag string) (*Group, error) {
 func RunDKGOpts(rng *rand.Rand, n int, tag string, o Opts) (*Group, error) {
 	g := &Group{N: n}
 	for i := 0; i < n; i++ {
+		if i < len(o.Miners) {
+			g.Miners = append(g.Miners, o.Miners[i])
+			g.IDs = append(g.IDs, o.Miners[i].ID)
+			continue
+		}
 		mi := NewMiner(rng, 0)
 		mi.ID = idFor(rng, o.IDStyle, o.Shift, i, g.IDs)
 		g.Miners = append(g.Miners, mi)
